@@ -176,6 +176,11 @@ def cases(tier, seed):
             yield c(fmt="hrs", w=w, h=h)
     for w, h in ((320, 192), (319, 3), (640, 2), (1000, 1), (1, 300)):
         yield c(fmt="hrs", w=w, h=h, pipes=(w == 319))
+    # -s N on a real pipe (a pipe cannot seek)
+    for skip in (1, 7, 300):
+        yield c(fmt="hrs", w=12, h=3, skip=skip, pipes=True)
+        yield c(fmt="max", cols=16, rows=3, how="rows", mode="bw", skip=skip, pipes=True)
+        yield c(fmt="max", cols=24, rows=2, how="newsroom", mode="br", skip=skip, pipes=True)
     for skip in range(0, 21):
         yield c(fmt="hrs", w=12, h=3, skip=skip)
         yield c(fmt="hrs", w=7, h=2, skip=skip)
